@@ -1036,6 +1036,22 @@ impl<'a> Model<'a> {
                 }
             }
         }
+        // ... and a request without an echo that is answered OK must have named something the
+        // grammar accepts
+        {
+            let named: Option<(&String, &str)> = match &c.req {
+                Req::Publish { topic, .. } | Req::ListTopicSubs { topic, .. } => Some((topic, "topics")),
+                Req::DeleteTopic { name } => Some((name, "topics")),
+                Req::Pull { sub, .. } | Req::Ack { sub, .. } | Req::Modify { sub, .. } => Some((sub, "subscriptions")),
+                Req::DeleteSub { name } => Some((name, "subscriptions")),
+                _ => None,
+            };
+            if let Some((n, seg)) = named {
+                if code == 0 && crate::pure::ref_parse(n, seg).is_none() {
+                    self.v("accepted_outside_grammar", &["C18", "C17"], format!("{} naming {:?} was answered OK although the name is outside the grammar", req_kind(&c.req), n));
+                }
+            }
+        }
         match &c.req {
             Req::CreateTopic { name } => {
                 let n = self.tnames.entry(name.clone()).or_default();
